@@ -36,9 +36,23 @@ def generate(seed, tier):
     rng = random.Random(seed)
     q = rng.choice([0.0, 0.05, 0.3])
     if rng.random() < 0.3:
+        if rng.random() < 0.15:
+            # a large directed input: 18-22 nodes, source and target sets of 8-10 nodes each
+            n = rng.randint(18, 22)
+            nodes = list(range(n))
+            edges = []
+            for _ in range(rng.randint(3, 5)):
+                ns = rng.sample(nodes, rng.randint(16, min(20, n)))
+                cut = rng.randint(8, len(ns) - 8)
+                edges.append([ns[:cut], ns[cut:]])
+            spec = {"nodes": nodes, "edges": edges, "labels": "int"}
+            return {"mode": "directed", "seed": seed, "q": q, "spec": spec, "variants": rng.randint(1, 2)}
         return {"mode": "directed", "seed": seed, "q": q, "spec": _gen.rand_directed_spec(rng),
                 "variants": rng.randint(1, 4)}
-    spec = _gen.rand_hypergraph_spec(rng, singletons=0.15)
+    if rng.random() < 0.08:
+        spec = _gen.rand_hypergraph_spec(rng, nmin=14, nmax=20, emin=8, emax=20, smin=2, smax=10, singletons=0.1)
+    else:
+        spec = _gen.rand_hypergraph_spec(rng, singletons=0.15)
     case = {"mode": "undirected", "seed": seed, "q": q, "spec": spec,
             "label": rng.choice(["edge", "stub"]), "detailed": rng.random() < 0.6,
             "K": rng.randint(1, 40 if tier == "quick" else 400)}
